@@ -1,8 +1,11 @@
 (* C14 — RTCM framer dispatches exactly the CRC-valid RTCM 3 frames.
-   Property theorems only; each is closed by [exact <lemma>] and followed by Print Assumptions. *)
+   Property theorems only; each is closed by [exact <lemma>] and followed by Print Assumptions.
+   MODEL: Models/FramerCoreM.v (SetBuffer/Reset/OnData/Resync) + Models/RtcmFramerM.v (OnByte), every
+   buffer access through checked accessors (outcome OobRead / OobWrite), the Resync loop on explicit fuel
+   (outcome OutOfFuel).  SPEC: Base/Scan.scan with Models/RtcmFormatM.judge_rtcm at the usable capacity. *)
 From Coq Require Import NArith ZArith List Bool.
 From FEC Require Import Generated.RtcmConsts Generated.Crc24qTable Base.Scan Models.FramerCoreM Models.FramerSpecM
-  Models.RtcmFormatM Models.RtcmFramerM Proofs.RtcmFormatP Proofs.RtcmFramerP.
+  Models.RtcmFormatM Models.RtcmFramerM Proofs.RtcmFormatP Proofs.RtcmFramerP Proofs.FramerCoreP Proofs.RtcmRefineP.
 Import ListNotations.
 Open Scope N_scope.
 
@@ -12,11 +15,78 @@ Theorem C14_crc24q_table_correct : crc24q_table_src = crc24q_table_computed.
 Proof. exact crc24q_table_correct. Qed.
 Print Assumptions C14_crc24q_table_correct.
 
-(* The acceptance test of the SPEC scan is a legitimate judge: verdicts are stable under more bytes,
-   accepted lengths lie within the bytes seen, and acceptance depends only on the frame's own bytes. *)
+(* CRC24Hash() as written (32-bit accumulator, table lookup, final mask) is the bit-serial CRC-24Q. *)
+Theorem C14_crc24_hash_is_crc24q : forall l, Forall (fun b => b < 256) l -> crc24_hash l = crc24q l.
+Proof. exact crc24_hash_eq_spec. Qed.
+Print Assumptions C14_crc24_hash_is_crc24q.
+
+(* The acceptance test of the SPEC scan is a legitimate judge (so all of Base/Scan.v applies), and what it
+   accepts is what the property text lists. *)
 Theorem C14_judge_ok : forall cap, JudgeOK (judge_rtcm cap) /\ JudgeLocal (judge_rtcm cap).
 Proof. intros cap. split; [exact (judge_rtcm_ok cap) | exact (judge_rtcm_local cap)]. Qed.
 Print Assumptions C14_judge_ok.
+
+Theorem C14_accept_means : forall cap l n, judge_rtcm cap l = Accept n ->
+  nth 0 l 0 = RTCM_PREAMBLE /\ (3 <= length l)%nat /\
+  n = Nat.add (N.to_nat (rtcm_len (nth 1 l 0) (nth 2 l 0))) 6 /\ (n <= length l)%nat /\ N.of_nat n <= cap /\
+  crc24q (firstn (n - 3) l) = be (Bytes.sub l (n - 3) 3).
+Proof. exact judge_rtcm_accept_inv. Qed.
+Print Assumptions C14_accept_means.
+
+(* MAIN: for every buffer (user at any address / managed, any capacity), every initial memory content and
+   every history of OnData / Reset / SetBuffer calls on bytes, the model never leaves its buffer and never
+   runs out of fuel (the run is [Ok]), and each call returns the total size of, and makes callbacks for,
+   exactly the frames the left-to-right scan delivers for that call — in order, once each, each passed from
+   buffer index 0 with its message number and full length. *)
+Theorem C14_rtcm_refines_scan : forall user alloc_addr capacity mem ops,
+  N.of_nat (length mem) = capacity + match user with None => RTCM_MANAGED_EXTRA | Some _ => 0 end ->
+  Forall op_ok ops ->
+  exists ff, run_ops rframer rtcm_op (rtcm_construct user alloc_addr capacity mem) ops =
+             Ok (map rtcm_out (spec_run judge_rtcm RTCM_OVERHEAD_BYTES RTCM_CLAMP (rtcm_spec_construct user alloc_addr capacity) ops), ff).
+Proof.
+  intros user alloc_addr capacity mem ops Hlen Hok.
+  exact (rtcm_history ops _ _ (rtcm_construct_sim user alloc_addr capacity mem Hlen) Hok).
+Qed.
+Print Assumptions C14_rtcm_refines_scan.
+
+(* ... in particular no read or write outside the buffer, for all streams, chunkings, capacities, alignments *)
+Theorem C14_rtcm_no_oob : forall user alloc_addr capacity mem ops,
+  N.of_nat (length mem) = capacity + match user with None => RTCM_MANAGED_EXTRA | Some _ => 0 end ->
+  Forall op_ok ops ->
+  match run_ops rframer rtcm_op (rtcm_construct user alloc_addr capacity mem) ops with
+  | Ok _ => True | OobRead _ _ => False | OobWrite _ _ => False | OutOfFuel => False end.
+Proof.
+  intros user alloc_addr capacity mem ops Hlen Hok.
+  destruct (rtcm_history ops _ _ (rtcm_construct_sim user alloc_addr capacity mem Hlen) Hok) as (ff & E).
+  rewrite E. exact I.
+Qed.
+Print Assumptions C14_rtcm_no_oob.
+
+(* Any division of a stream into OnData() calls: the callbacks, concatenated, are the frames of ONE scan of
+   the whole stream; the return values add up to their total size; GetNumDecodedMessages() equals the number
+   of callbacks (the counter is a uint32_t). *)
+Theorem C14_stream_exact_any_chunking : forall user alloc_addr capacity mem cap chunks,
+  N.of_nat (length mem) = capacity + match user with None => RTCM_MANAGED_EXTRA | Some _ => 0 end ->
+  sp_cap (rtcm_spec_construct user alloc_addr capacity) = Some cap ->
+  Forall bytes_lt256 chunks ->
+  exists outs ff, run_ops rframer rtcm_op (rtcm_construct user alloc_addr capacity mem) (map OpData chunks) = Ok (outs, ff) /\
+    concat (map snd outs) = map rtcm_event_of (fst (scan (judge_rtcm cap) 0 (concat chunks))) /\
+    fold_right N.add 0 (map fst outs) = frames_total (fst (scan (judge_rtcm cap) 0 (concat chunks))) /\
+    u32 (rtcm_decoded ff) = u32 (N.of_nat (length (concat (map snd outs)))).
+Proof. exact rtcm_stream_exact. Qed.
+Print Assumptions C14_stream_exact_any_chunking.
+
+(* The usable capacity the SPEC uses is what is left of the buffer from the first 4-byte aligned address. *)
+Theorem C14_usable_capacity : forall a capacity,
+  6 <= capacity ->
+  sp_cap (rtcm_spec_construct (Some a) 0 capacity) =
+    (let c := N.min capacity RTCM_CLAMP - (4 - a mod 4) mod 4 in if c <? 6 then None else Some c).
+Proof.
+  intros a capacity H. unfold rtcm_spec_construct, rtcm_spec_op, spec_op, spec_eff_capacity.
+  destruct (N.ltb_spec capacity RTCM_OVERHEAD_BYTES) as [C|_]; [unfold RTCM_OVERHEAD_BYTES in C; cbn in C; exfalso; apply (N.lt_irrefl 6); eapply N.le_lt_trans; eassumption|].
+  reflexivity.
+Qed.
+Print Assumptions C14_usable_capacity.
 
 Theorem C14_reset_is_fresh : forall f : rframer,
   let c := f_core (rtcm_reset f) in
@@ -24,3 +94,17 @@ Theorem C14_reset_is_fresh : forall f : rframer,
   c_cap c = c_cap (f_core f) /\ f_has (rtcm_reset f) = f_has f /\ length (c_buf c) = length (c_buf (f_core f)).
 Proof. exact rtcm_reset_is_fresh. Qed.
 Print Assumptions C14_reset_is_fresh.
+
+(* Non-vacuity: a concrete instance meets the hypotheses and the result is not trivial — a 9-byte user buffer
+   at an address = 1 mod 4 (6 usable bytes), a stray 0xD3, then the empty frame D3 00 00 47 EA 4B split over
+   two calls, then a Reset. *)
+Example C14_nonvacuous :
+  let ops := [OpData [211; 211; 0]; OpData [0; 71; 234; 75; 5]; OpReset] in
+  Forall op_ok ops /\ N.of_nat (length (repeat 0 9)) = 9 /\
+  sp_cap (rtcm_spec_construct (Some 1) 0 9) = Some 6 /\
+  exists ff, run_ops rframer rtcm_op (rtcm_construct (Some 1) 0 9 (repeat 0 9)) ops =
+             Ok ([(0, []); (6, [(1150, [211; 0; 0; 71; 234; 75])]); (0, [])], ff).
+Proof.
+  split; [repeat constructor|]. split; [reflexivity|]. split; [reflexivity|].
+  eexists. vm_compute. reflexivity.
+Qed.
